@@ -1,13 +1,23 @@
 (* evaluators used by generated cases files; depends on the model only *)
 From Coq Require Import String Ascii.
-From Coq Require Import List NArith ZArith Bool.
+From Coq Require Import List NArith ZArith Bool Uint63.
 From K.Model Require Export C02.
 Import ListNotations.
 Local Open Scope N_scope.
 
-(* compact literals in cases files: s "text" = character codes, x "00ff" = bytes *)
-Definition s := codes.
-Definition x := unhex.
+(* compact literals in cases files (primitive integers are one node each, so a cases file is
+   parsed and type-checked quickly): xb len [i1; i2; ...] = the byte string of length len whose
+   bytes are the big-endian 7-byte groups i1, i2, ... (the last group holds the remaining
+   len mod 7 bytes, right-aligned); ns [i1; ...] = a list of numbers *)
+Definition int_N (i : int) : N := Z.to_N (Uint63.to_Z i).
+Fixpoint be_bytes (n : nat) (v : N) (acc : list N) : list N :=
+  match n with O => acc | S k => be_bytes k (N.shiftr v 8) (N.land v 255 :: acc) end.
+Fixpoint xb (len : N) (l : list int) : list N :=
+  match l with
+  | [] => []
+  | i :: t => let k := N.min 7 len in be_bytes (N.to_nat k) (int_N i) (xb (len - k) t)
+  end.
+Definition ns (l : list int) : list N := map int_N l.
 
 (* the model instantiated with the executable CRC-32 and SHA-1 *)
 Definition model_obs (c : cin) : cobs := case_model crc32 sha1_bytes c.
